@@ -29,7 +29,7 @@ CHECKS = {
         level="model_checking",
         technique="TLA+ spec Record (authenticated channel + bounded active adversary) model-checked by TLC; every canonical adversary schedule TLC generates is executed by a record-level man in the middle between real established GMSSL connections; record-layer hooks traced from the real code are validated by TLC (HalfConnTrace: sequence numbers, nonces/IVs, sticky error)",
         text="TLC proves Prefix/SeqByOne/Sticky for the channel model with a free adversary (3-4 records, 3 actions) and enumerates all canonical schedules of <=2 actions with concrete instances (header field rewrites incl. type->alert/CCS on alert-like payloads, IV/body/MAC byte flips, truncation/extension, drop, dup, swap, forged / other-direction / other-connection records); each runs against both GMSSL suites and both directions: what Read returned must be exactly the predicted prefix and the first affected record must end the connection with a fatal error; single-bit flips over a whole record; every encrypt/decrypt/CCS/error of every run is validated by the half-connection trace spec.",
-        note="Trusts TLC, the interposer and the hooks (emitted under the half-connection lock). CBC padding-length catalogue (0..255) is not covered: the sender always pads minimally. Schedules beyond 2 actions and records beyond 3 are covered by the model only.",
+        note="Trusts TLC, the interposer and the hooks (emitted under the half-connection lock). The CBC padding catalogue (every length 0..255, corrupted padding bytes) is produced by TLC itself: RecordSeal.tla derives the session keys from the key log and seals the records that the real receiver must accept or reject. Schedules beyond 2 actions and records beyond 3 are covered by the model only.",
         ref="DESIGN.md section 5 C07"),
     "C11": dict(
         level="model_checking",
